@@ -1,0 +1,110 @@
+//go:build verif
+
+package mutable
+
+// Contracts for CopyOnWriteMap (copyonwrite.go) — property C19 — checked by
+// /verif/govc.  Comment-only file.
+//
+// Method: rely/guarantee over the atomic cell `value`.  Lock invariant: the
+// cell is written only by the holder of `lock` (so it is stable while we hold
+// it); a published map is never modified (frame obligations).  Each writer
+// has ONE atomic write whose effect must be the sequential specification of
+// the operation applied to the map that is current at that instant — that
+// write is its linearisation point; readers linearise at their single Load.
+
+//@ ghost
+//@ func cowMap[K, V any](x any) fp.UnsafeGoMap[K, V] {
+//@ 	m, _ := x.(fp.UnsafeGoMap[K, V])
+//@ 	return m
+//@ }
+//@ func cowIsMap[K, V any](x any) bool {
+//@ 	m, ok := x.(fp.UnsafeGoMap[K, V])
+//@ 	return ok && m != nil
+//@ }
+//@ func cowRely[K, V any](r *CopyOnWriteMap[K, V], o, n any) bool {
+//@ 	if verifspec.Holding(&r.lock) {
+//@ 		return verifspec.Same(o, n)
+//@ 	}
+//@ 	return cowIsMap[K, V](n) || (o == nil && n == nil)
+//@ }
+//@ func cowIsInit[K, V any](r *CopyOnWriteMap[K, V], o, n any) bool {
+//@ 	return verifspec.Holding(&r.lock) && o == nil && cowIsMap[K, V](n) && len(cowMap[K, V](n)) == 0 && (forall q any :: !verifspec.Has(cowMap[K, V](n), q))
+//@ }
+//@ func cowIsUpdate[K, V any](r *CopyOnWriteMap[K, V], o, n any, k K, v V) bool {
+//@ 	om, nm := cowMap[K, V](o), cowMap[K, V](n)
+//@ 	return verifspec.Holding(&r.lock) && cowIsMap[K, V](n) && Eq(nm[k], v) && verifspec.Has(nm, any(k)) && len(nm) >= len(om) && (forall q any :: !Eq(q, any(k)) ==> verifspec.Has(nm, q) == verifspec.Has(om, q) && (verifspec.Has(om, q) ==> Eq(nm[q], om[q])))
+//@ }
+//@ func cowUpdated[K, V any](k K, v V) bool {
+//@ 	r := &CopyOnWriteMap[K, V]{}
+//@ 	verifspec.SetRelyValue(func(o, n any) bool { return cowRely(r, o, n) })
+//@ 	verifspec.SetGuaranteeValue(func(o, n any) bool { return cowIsInit(r, o, n) || cowIsUpdate(r, o, n, k, v) })
+//@ 	verifspec.Shared(&r.value)
+//@ 	r.Updated(k, v)
+//@ 	return verifspec.AtomicWrites() == 1 && !verifspec.Holding(&r.lock)
+//@ }
+//@ func cowGet[K, V any](k K) bool {
+//@ 	r := &CopyOnWriteMap[K, V]{}
+//@ 	verifspec.SetRelyValue(func(o, n any) bool { return cowRely(r, o, n) })
+//@ 	verifspec.SetGuaranteeValue(func(o, n any) bool { return cowIsInit(r, o, n) })
+//@ 	verifspec.Shared(&r.value)
+//@ 	r.Get(k)
+//@ 	r.Size()
+//@ 	return !verifspec.Holding(&r.lock)
+//@ }
+//@ func cowSame[K, V any](o, n any) bool {
+//@ 	om, nm := cowMap[K, V](o), cowMap[K, V](n)
+//@ 	return cowIsMap[K, V](n) && len(nm) == len(om) && (forall q any :: verifspec.Has(nm, q) == verifspec.Has(om, q) && (verifspec.Has(om, q) ==> Eq(nm[q], om[q])))
+//@ }
+//@ func cowComputeIfAbsent[K, V any](k K, f func() V) bool {
+//@ 	r := &CopyOnWriteMap[K, V]{}
+//@ 	verifspec.SetRelyValue(func(o, n any) bool { return cowRely(r, o, n) })
+//@ 	verifspec.SetGuaranteeValue(func(o, n any) bool {
+//@ 		if !verifspec.Holding(&r.lock) {
+//@ 			return false
+//@ 		}
+//@ 		if cowIsInit(r, o, n) {
+//@ 			return true
+//@ 		}
+//@ 		if verifspec.Has(cowMap[K, V](o), any(k)) {
+//@ 			return cowSame[K, V](o, n) // a present key is never overwritten
+//@ 		}
+//@ 		return cowIsUpdate(r, o, n, k, cowMap[K, V](n)[k])
+//@ 	})
+//@ 	verifspec.Shared(&r.value)
+//@ 	got := r.ComputeIfAbsent(k, f)
+//@ 	if !verifspec.Has(cowMap[K, V](verifspec.Peek(&r.value)), any(k)) {
+//@ 		return false // after ComputeIfAbsent the key is present
+//@ 	}
+//@ 	if verifspec.AtomicWrites() == 0 {
+//@ 		return true // the key was already present when we looked: existing value returned
+//@ 	}
+//@ 	cur := cowMap[K, V](verifspec.Peek(&r.value))
+//@ 	return verifspec.Has(cur, any(k)) && verifspec.Eq(verifspec.W(got), verifspec.W(cur[k]))
+//@ }
+//@ end
+//
+//@ func (*CopyOnWriteMap).Updated(r, k, v) result
+//@   loop 0 invariant Fresh(nm) && len(nm) == verifspec.VisitedCount(om)-1 && verifspec.VisitedCount(om) <= len(om) && verifspec.Visited(om, k) && verifspec.Has(om, k) && Eq(v, om[k])
+//@   loop 0 invariant forall q any :: verifspec.Visited(om, q) && !Eq(q, k) ==> verifspec.Has(nm, q) && Eq(nm[q], om[q])
+//@   loop 0 invariant forall q any :: verifspec.Has(nm, q) ==> verifspec.Visited(om, q) && !Eq(q, k)
+//@   loop 0 invariant forall q any :: verifspec.Visited(om, q) ==> verifspec.Has(om, q)
+//@   loop 0 decreases len(om) - verifspec.VisitedCount(om)
+//
+//@ lemma cowUpdatedLinearises[K, V any](k K, v V)
+//@   prop C19
+//@   ensures cowUpdated(k, v)
+//
+//@ lemma cowReaders[K, V any](k K)
+//@   prop C19
+//@   ensures cowGet[K, V](k)
+//
+//@ func (*CopyOnWriteMap).ComputeIf(r, k, pred, f) result
+//@   loop 0 invariant Fresh(nm) && len(nm) == verifspec.VisitedCount(om)-1 && verifspec.VisitedCount(om) <= len(om) && verifspec.Visited(om, k) && verifspec.Has(om, k) && Eq(v, om[k])
+//@   loop 0 invariant forall q any :: verifspec.Visited(om, q) && !Eq(q, k) ==> verifspec.Has(nm, q) && Eq(nm[q], om[q])
+//@   loop 0 invariant forall q any :: verifspec.Has(nm, q) ==> verifspec.Visited(om, q) && !Eq(q, k)
+//@   loop 0 invariant forall q any :: verifspec.Visited(om, q) ==> verifspec.Has(om, q)
+//@   loop 0 decreases len(om) - verifspec.VisitedCount(om)
+//
+//@ lemma cowComputeIfAbsentAtomic[K, V any](k K, f func() V)
+//@   prop C19
+//@   ensures cowComputeIfAbsent(k, f)
